@@ -359,3 +359,227 @@ Definition std_run (cfg : scfg) (evs : list sev) : option sout :=
       else dpe_part cfg true st rest
   | _ => None
   end.
+
+(* ------------------------------------------------------------------ mps_secular_ga_mpsolve (secsolve/secular-ga.c) *)
+Record gcfg := mkGcfg {
+  g_goal : goal;
+  g_secular_input : bool;            (* MPS_IS_SECULAR_EQUATION (active_poly) *)
+  g_start : phase;                   (* input_config->starting_phase *)
+  g_crude : bool;                    (* crude_approximation_mode *)
+  g_avoid_mp : bool;                 (* avoid_multiprecision *)
+  g_max_pack : Z;
+  g_pprec : Z;                       (* active_poly->prec *)
+  g_nonewton : bool; g_user : bool   (* for mps_improve *)
+}.
+
+(* outcomes of the opaque calls / values of the fields the driver reads, in program order *)
+Inductive gev :=
+| GvCheckData (which_f : bool) (err : bool)   (* mps_check_data ; mps_context_has_errors *)
+| GvStart (err : bool)                        (* mps_polynomial_fstart / dstart ; EXIT_ON_ERRORS *)
+| GvFpe (b : bool)                            (* mps_context_has_floating_point_exceptions, after the float packet *)
+| GvErr (b : bool)                            (* an EXIT_ON_ERRORS test *)
+| GvStop (exit_required : bool) (sts : list nat)   (* the fields one call of mps_secular_ga_check_stop reads *)
+| GvNeedDpe (b : bool)                        (* really_need_dpe after the loop over the moduli *)
+| GvRegen (ok : bool)                         (* mps_secular_ga_regenerate_coefficients *)
+| GvExitReq (b : bool)                        (* a test of s->exit_required *)
+| GvIter (fail best : bool)                   (* an iteration packet: roots_computed == -1 ; s->best_approx afterwards *)
+| GvValidate (sts : list nat)                 (* mps_validate_inclusions (only if active_poly->prec > 0): statuses it leaves *)
+| GvImprove (cp0 : Z) (rounds : list (list bool)) (rs : list rt).   (* mps_improve: roots it starts from *)
+
+Inductive gwhy := WErrors | WCrude | WStop (exit_required : bool) (ph : phase) (sts : list nat) | WAvoidMp.
+Inductive gexit :=
+| GErrReturn                                   (* one of the `mps_error (...); return;` exits *)
+| GCleanupErrors                               (* cleanup reached with errors: exit_required = true, nothing copied *)
+| GExitAfterCopy (w : gwhy)                    (* roots copied, then `if (s->exit_required) return;` *)
+| GDone (w : gwhy) (improve : option imp_out). (* the normal end *)
+
+Record gout := mkGout { go_exit : gexit; go_phase : phase; go_final : option (list nat) (* statuses after mps_improve *);
+                        go_from : list rt (* the roots mps_improve started from *) }.
+
+(* cleanup: *)
+Definition sec_cleanup (cfg : gcfg) (w : gwhy) (ph : phase) (evs : list gev) : option gout :=
+  match evs with
+  | GvErr true :: [] => Some (mkGout GCleanupErrors ph None [])
+  | GvErr false :: rest =>
+    (* nothing is called between the EXIT_ON_ERRORS test that led here and this test of the same sticky flag *)
+    match w with WErrors => None | _ =>
+    let after_validate (rest : list gev) : option gout :=
+      match rest with
+      | GvExitReq true :: [] => Some (mkGout (GExitAfterCopy w) ph None [])
+      | GvExitReq false :: rest' =>
+        if is_approx_goal (g_goal cfg) then
+          match rest' with
+          | [GvImprove cp0 rounds rs] =>
+            match improve (g_nonewton cfg) (g_user cfg) (g_pprec cfg) cp0 rounds rs with
+            | Some io => Some (mkGout (GDone w (Some io)) ph (Some (io_sts io)) rs)
+            | None => None
+            end
+          | _ => None
+          end
+        else match rest' with [] => Some (mkGout (GDone w None) ph None []) | _ => None end
+      | _ => None
+      end in
+    if g_pprec cfg >? 0 then
+      match rest with
+      | GvValidate _ :: rest' => after_validate rest'
+      | _ => None
+      end
+    else after_validate rest
+    end
+  | _ => None
+  end.
+
+Definition err_return (ph : phase) (evs : list gev) : option gout :=
+  match evs with [] => Some (mkGout GErrReturn ph None []) | _ => None end.
+
+Definition is_mp (ph : phase) : bool := match ph with MpPhase => true | _ => false end.
+Definition is_float (ph : phase) : bool := match ph with FloatPhase => true | _ => false end.
+Definition is_dpe (ph : phase) : bool := match ph with DpePhase => true | _ => false end.
+
+(* the `do { ... } while (skip_check_stop || !mps_secular_ga_check_stop (s))` loop; one turn per [fuel] *)
+Fixpoint sec_loop (fuel : nat) (cfg : gcfg) (ph : phase) (just_regen : bool) (packet : Z) (evs : list gev) : option gout :=
+  match fuel with
+  | O => None
+  | S fuel' =>
+    (* the iteration packet(s): a failing float packet falls through to the DPE code *)
+    let after_iter (best : bool) (evs : list gev) : option gout :=
+      let packet := packet + 1 in
+      match evs with
+      | GvExitReq true :: rest => err_return ph rest
+      | GvExitReq false :: rest =>
+        if packet >? g_max_pack cfg then err_return ph rest
+        else
+          (* `if (!just_regenerated) { if (check_stop) break; else skip = true; }` *)
+          let cont (skip : bool) (rest : list gev) : option gout :=
+            (* `if (s->best_approx)` *)
+            let tail (ph : phase) (just_regen : bool) (packet : Z) (rest : list gev) : option gout :=
+              match rest with
+              | GvExitReq true :: r => err_return ph r
+              | GvExitReq false :: GvRegen ok :: r =>
+                let finish (ph : phase) (just_regen : bool) (packet : Z) (r : list gev) : option gout :=
+                  match r with
+                  | GvExitReq true :: r' => err_return ph r'
+                  | GvExitReq false :: GvStop ex sts :: r' =>                    (* the while condition; skip is false here *)
+                    if sec_check_stop ex ph sts then sec_cleanup cfg (WStop ex ph sts) ph r'
+                    else sec_loop fuel' cfg ph just_regen packet r'
+                  | _ => None
+                  end in
+                if ok then finish ph true packet r
+                else if is_mp ph then
+                  match r with
+                  | GvRegen _ :: r' => finish ph just_regen 0 r'               (* raise_precision + regenerate, result unused *)
+                  | _ => None
+                  end
+                else finish MpPhase just_regen 0 r                             (* mps_secular_switch_phase (s, mp_phase) *)
+              | _ => None
+              end in
+            if best then
+              if g_avoid_mp cfg then sec_cleanup cfg WAvoidMp ph rest
+              else
+                let ph' := if is_mp ph then ph else MpPhase in
+                match rest with
+                | GvExitReq true :: r => err_return ph' r
+                | GvExitReq false :: GvRegen ok :: GvExitReq ex2 :: r =>
+                  if ex2 then err_return ph' r
+                  else tail ph' (if ok then true else just_regen) 0 r
+                | _ => None
+                end
+            else tail ph just_regen packet rest in
+          if just_regen then cont false rest
+          else match rest with
+               | GvStop ex sts :: rest' =>
+                 if sec_check_stop ex ph sts then sec_cleanup cfg (WStop ex ph sts) ph rest'
+                 else cont true rest'
+               | _ => None
+               end
+      | _ => None
+      end in
+    match evs with
+    | GvIter fail best :: rest =>
+      if is_float ph && fail then
+        match rest with
+        | GvIter _ best2 :: rest' => after_iter best2 rest'
+        | _ => None
+        end
+      else after_iter best rest
+    | _ => None
+    end
+  end.
+
+(* from `EXIT_ON_ERRORS` after the starting points to the loop *)
+Definition sec_main (cfg : gcfg) (ph : phase) (just_regen : bool) (evs : list gev) : option gout :=
+  match evs with
+  | GvErr true :: rest => sec_cleanup cfg WErrors ph rest
+  | GvErr false :: GvExitReq true :: rest => err_return ph rest
+  | GvErr false :: GvExitReq false :: rest => sec_loop (length rest) cfg ph just_regen 0 rest
+  | _ => None
+  end.
+
+(* preliminary_aberth_packet: ... for a polynomial input; [fuel] bounds the `goto preliminary_aberth_packet` (taken at most once) *)
+Fixpoint sec_prelim (fuel : nat) (cfg : gcfg) (ph : phase) (evs : list gev) : option gout :=
+  match fuel with
+  | O => None
+  | S fuel' =>
+    let after_packet (ph : phase) (evs : list gev) : option gout :=
+      match evs with
+      | GvErr true :: rest => sec_cleanup cfg WErrors ph rest
+      | GvErr false :: rest =>
+        if g_crude cfg then sec_cleanup cfg WCrude ph rest
+        else match rest with
+        | GvStop ex sts :: rest' =>                                          (* after mps_cluster_analysis *)
+          if sec_check_stop ex ph sts then sec_cleanup cfg (WStop ex ph sts) ph rest'
+          else
+            let regen (ph : phase) (rest : list gev) : option gout :=
+              match rest with
+              | GvRegen true :: r => sec_main cfg ph false r
+              | GvRegen false :: r =>
+                if is_float ph then
+                  match r with
+                  | GvRegen true :: r' => sec_main cfg DpePhase true r'
+                  | GvRegen false :: r' => err_return DpePhase r'
+                  | _ => None
+                  end
+                else err_return ph r
+              | _ => None
+              end in
+            if is_dpe ph then
+              match rest' with
+              | GvNeedDpe b :: r => regen (if b then ph else FloatPhase) r
+              | _ => None
+              end
+            else regen ph rest'
+        | _ => None
+        end
+      | _ => None
+      end in
+    match ph with
+    | FloatPhase =>
+      match evs with
+      | GvStart true :: rest => sec_cleanup cfg WErrors ph rest
+      | GvStart false :: GvFpe true :: rest => sec_prelim fuel' cfg DpePhase rest
+      | GvStart false :: GvFpe false :: rest => after_packet ph rest
+      | _ => None
+      end
+    | DpePhase =>
+      match evs with
+      | GvStart true :: rest => sec_cleanup cfg WErrors ph rest
+      | GvStart false :: rest => after_packet ph rest
+      | _ => None
+      end
+    | _ => err_return ph evs                                                 (* "Unrecognized starting phase" *)
+    end
+  end.
+
+Definition sec_run (cfg : gcfg) (evs : list gev) : option gout :=
+  if g_secular_input cfg then sec_main cfg FloatPhase false evs
+  else
+    match g_start cfg with
+    | NoPhase =>
+      match evs with
+      | GvCheckData which_f err :: rest =>
+        if err then err_return NoPhase rest
+        else sec_prelim 3 cfg (if which_f then FloatPhase else DpePhase) rest
+      | _ => None
+      end
+    | ph => sec_prelim 3 cfg ph evs
+    end.
